@@ -744,6 +744,15 @@ def _run(w, plan):
                 continue
             if s["topic"] not in topics_parts:
                 continue
+            # The producer has one attempt counter per batch cycle, and looking up a topic that does not exist spends
+            # it (producer.py _next_partition).  A send whose life overlaps such a lookup may find the budget gone, so
+            # "within the retry budget" promises nothing for it.
+            w_end = s["w"].t if s["w"].fires else float("inf")
+            overlapped = [o for o in sends.values() if o["topic"] not in topics_parts
+                          and o["t"] <= w_end and (not o["w"].fires or o["w"].t >= s["t"])]
+            if overlapped and not (s["w"].fires == 1 and s["w"].ok):
+                res.probe("post_fault_send_shared_budget_with_unknown_topic")
+                continue
             res.oblige("C08")
             if not (s["w"].fires == 1 and s["w"].ok):
                 res.violate("C08", "C08:send-after-faults-ended-did-not-succeed:%s" % (s["w"].err or "unresolved"),
